@@ -141,6 +141,40 @@ def async_session(n_cmds, rng, snapshot="/repo/tests/snapshots/default.snapshot"
         return [wire_history(d for (_, d, _) in t.sent) for t in conn]
 
 
+def reconnecting_spa(n_conn, rng, snapshot="/repo/tests/snapshots/default.snapshot"):
+    """ONE GeckoAsyncSpa object that is connected, used, disconnected and connected again (public API; the manager
+    happens to build a new object per connection): every connection's datagrams form a run of a FRESH counter pair"""
+    from geckolib.async_spa import GeckoAsyncSpa
+    from geckolib.async_spa_descriptor import GeckoAsyncSpaDescriptor
+    from geckolib.async_tasks import AsyncTasks
+    from ..simnet import SIM_ADDR
+    peer = WcPeer(snapshot)
+    net = Network([peer])
+    with World(net) as w:
+        async def main():
+            async def handler(event, **kw):
+                pass
+            tm = AsyncTasks()
+            await tm.__aenter__()
+            try:
+                spa = GeckoAsyncSpa(b"IOSgv-reconnecting", GeckoAsyncSpaDescriptor(b"SPA01:02:03:04:05:06", "x", SIM_ADDR), tm, handler)
+                for k in range(n_conn):
+                    await spa.connect()
+                    if not spa.is_connected:
+                        raise env.MachineryError("reconnecting spa: handshake did not complete")
+                    for _ in range(rng.randrange(1, 5)):
+                        await rng.choice([spa.async_get_watercare, spa.async_get_reminders,
+                                          lambda: spa.async_press(rng.choice([1, 2, 16]))])()
+                    await asyncio.sleep(rng.choice([0.5, 3.0]))
+                    await spa.disconnect()
+                    await asyncio.sleep(0.5)
+            finally:
+                await tm.__aexit__(None)
+        w.run(main())
+        conn = [t for t in w.loop.transports if t.kw.get("allow_broadcast") is None]
+        return [wire_history(d for (_, d, _) in t.sent) for t in conn]
+
+
 def threaded_session(n_cmds, rng, snapshot="/repo/tests/snapshots/default.snapshot"):
     """the blocking client with its ping thread running (cooperatively, virtual time): commands, a period in
     which the spa answers no ping for longer than the not-responding timeout, commands again"""
@@ -202,6 +236,11 @@ def run(ctx):
             raise env.MachineryError("early push: the acknowledgement was not the connection's first numbered datagram")
         for h in hs:
             logs.append({"client": "async", "thr": [h], "n": len(h), "early_push": d})
+    hs = reconnecting_spa(3, rng)
+    if len(hs) < 3:
+        raise env.MachineryError("reconnecting spa: fewer connections than planned")
+    for h in hs:
+        logs.append({"client": "async", "thr": [h], "n": len(h), "same_spa_object": True})
     for h in threaded_session(n, rng):
         logs.append({"client": "threaded", "thr": [h], "n": len(h)})
     logs = [l for l in logs if l["n"]]
